@@ -110,6 +110,10 @@ impl LoadBalancer {
   pub async fn wait_for_connection(&self) -> Result<(), ZmqError> {
     let notify = self.notify_waiters.clone();
     loop {
+      // Subscribe before checking: a `Notified` receives every `notify_waiters()` issued after
+      // its creation. Checking first and subscribing afterwards misses a peer added (or a
+      // deactivation) in between, and the sender then sleeps although a peer is connected.
+      let notified = notify.notified();
       if self.deactivated.load(std::sync::atomic::Ordering::Acquire) {
         return Err(ZmqError::InvalidState("Socket closed".into()));
       }
@@ -118,7 +122,7 @@ impl LoadBalancer {
       }
       #[cfg(any(rzmq_verif, kani))]
       crate::verif_facade::sched_point("LoadBalancer::wait_for_connection:after-check");
-      notify.notified().await;
+      notified.await;
     }
   }
 
